@@ -273,6 +273,96 @@ func checkUTF8Tables(c *Ctx, p *packages.Package) {
 		}
 		c.Check("R19.3", "emitted constant "+name+" equals unicode/utf8's", token.NoPos, ke.Val().ExactString() == ku.Val().ExactString(), fmt.Sprintf("%s vs %s", ke.Val(), ku.Val()))
 	}
+	checkUTF8Composition(c, p)
+}
+
+// checkUTF8Composition: every rune the emitted reader composes from n bytes is  (b0 & (0xFF >> (n+1))) << 6(n-1) | ... |
+// (b(n-1) & 0x3F), the definition of UTF-8: the terms of each returned `rune(b & mask) << shift | ...` expression are evaluated
+// (constants through go/types) and compared with that schema. The tables can be right and the decoder still wrong when it
+// applies the mask of another length to the lead byte.
+func checkUTF8Composition(c *Ctx, p *packages.Package) {
+	info := p.TypesInfo
+	n := 0
+	AllFuncDecls(p, func(fd *ast.FuncDecl) {
+		if fd.Body == nil {
+			return
+		}
+		ast.Inspect(fd.Body, func(nd ast.Node) bool {
+			ret, ok := nd.(*ast.ReturnStmt)
+			if !ok || len(ret.Results) == 0 {
+				return true
+			}
+			// flatten  t0 | t1 | ... ; each term  rune(b & MASK) << SHIFT  (shift optional)
+			var terms []ast.Expr
+			var flat func(e ast.Expr)
+			flat = func(e ast.Expr) {
+				if b, ok := ast.Unparen(e).(*ast.BinaryExpr); ok && b.Op == token.OR {
+					flat(b.X)
+					flat(b.Y)
+					return
+				}
+				terms = append(terms, ast.Unparen(e))
+			}
+			flat(ret.Results[0])
+			if len(terms) < 2 || len(terms) > 4 {
+				return true
+			}
+			type term struct {
+				mask, shift int64
+			}
+			var ts []term
+			for _, t := range terms {
+				var shift int64
+				if b, ok := t.(*ast.BinaryExpr); ok && b.Op == token.SHL {
+					v, ok := constInt(info, b.Y)
+					if !ok {
+						return true
+					}
+					shift = v
+					t = ast.Unparen(b.X)
+				}
+				call, ok := t.(*ast.CallExpr)
+				if !ok || len(call.Args) != 1 {
+					return true
+				}
+				if tv, ok := info.Types[call.Fun]; !ok || !tv.IsType() {
+					return true
+				}
+				and, ok := ast.Unparen(call.Args[0]).(*ast.BinaryExpr)
+				if !ok || and.Op != token.AND {
+					return true
+				}
+				m, ok := constInt(info, and.Y)
+				if !ok {
+					m, ok = constInt(info, and.X)
+				}
+				if !ok {
+					return true
+				}
+				ts = append(ts, term{m, shift})
+			}
+			n++
+			k := int64(len(ts))
+			bad := ""
+			for i, t := range ts {
+				wantShift := 6 * (k - 1 - int64(i))
+				wantMask := int64(0x3F)
+				if i == 0 {
+					wantMask = 0xFF >> (k + 1)
+				}
+				if t.mask != wantMask || t.shift != wantShift {
+					bad = fmt.Sprintf("byte %d of a %d-byte sequence is taken as (b & %#x) << %d, UTF-8 says (b & %#x) << %d", i, k, t.mask, t.shift, wantMask, wantShift)
+					break
+				}
+			}
+			c.Check("R19.3", fmt.Sprintf("emitted decoder composes a %d-byte sequence as UTF-8 defines it", k), token.NoPos, bad == "", bad+": the code point handed to the automaton is another character",
+				"a three-byte character from U+8000 up (e.g. U+D55C) in the input")
+			return true
+		})
+	})
+	if n < 3 {
+		c.Undecided("R19.3", "emitted decoder composes multi-byte sequences as UTF-8 defines it", token.NoPos, fmt.Sprintf("only %d composed-rune returns of the form rune(b&mask)<<shift | ... were found", n))
+	}
 }
 
 // checkReaderDiscipline: R19.4 on the emitted input reader.
